@@ -311,6 +311,9 @@ func checkC07(c *Ctx) error {
 			addInertParts(rand.New(rand.NewSource(c.Seed*13+int64(k))), conf)
 			inert++
 		}
+		if k%5 == 3 {
+			respellTagged(conf, k)
+		}
 		jobs = append(jobs, conf)
 	}
 	// (c2) the same with a fifth kind, a decorator whose argument requests a tag (5^9 graphs: sampled)
@@ -328,6 +331,9 @@ func checkC07(c *Ctx) error {
 			conf := mixedGraphConfigN(3, func(i, j int) int { return cell[i*3+j] }, k%4 == 1)
 			if k%5 == 2 {
 				addInertParts(r, conf)
+			}
+			if k%7 == 3 {
+				respellTagged(conf, k)
 			}
 			jobs = append(jobs, conf)
 		}
